@@ -68,7 +68,7 @@ class C17:
         return _strategy()
 
     def examples(self, tier):
-        return 2400 if tier == "quick" else 40000
+        return 2400 if tier == "quick" else 300000
 
     def enumerate(self, tier):
         out = []
